@@ -44,7 +44,46 @@ class Analysis:
         self.summaries: dict[FuncInfo, str] = {}
         self.opaque_bytes: set = set()
         self.results = {}        # FuncInfo -> (hits, interp, n_states)
+        self._load_or_choose_summaries()
+
+    def _digest(self):
+        import hashlib
+        import os
+        h = hashlib.sha256()
+        for m in sorted(self.prog.modules.values(), key=lambda m: m.name):
+            h.update(m.name.encode())
+            h.update(m.src.encode())
+        here = os.path.dirname(os.path.abspath(__file__))
+        for f in ("absint.py", "sites.py", "lin.py", "rx.py", "model.py"):
+            with open(os.path.join(here, f), "rb") as fh:
+                h.update(fh.read())
+        return h.hexdigest()
+
+    def _load_or_choose_summaries(self):
+        """the choice of which helpers are summarised is a deterministic function of the sources: cached by digest"""
+        import json
+        import os
+        cdir = os.path.join(os.path.dirname(os.path.dirname(os.path.abspath(__file__))), ".cache")
+        path = os.path.join(cdir, "summaries.json")
+        dg = self._digest()
+        try:
+            with open(path) as f:
+                c = json.load(f)
+            if c.get("digest") == dg:
+                self.summaries = {self.prog.fn(k): v for k, v in c["summaries"].items()}
+                self.opaque_bytes = {self.prog.fn(k) for k in c["opaque"]}
+                return
+        except Exception:   # noqa: BLE001
+            pass
         self._choose_summaries()
+        try:
+            os.makedirs(cdir, exist_ok=True)
+            tmp = path + f".{os.getpid()}"
+            with open(tmp, "w") as f:
+                json.dump({"digest": dg, "summaries": {k.fq: v for k, v in self.summaries.items()}, "opaque": sorted(k.fq for k in self.opaque_bytes)}, f)
+            os.replace(tmp, path)
+        except OSError:
+            pass
 
     def bytes_param(self, fi: FuncInfo):
         a = fi.node.args
